@@ -76,7 +76,8 @@ CLAIMED["C07"] = ("other", "Mixed: (proof) MultiMarker.__str__ / MarkerUnion.__s
                   "<empty>/'' round trip and absence of <empty> inside larger markers checked there.", "5 C07", "A-PKG-PARSE (precedence); str() contract of children assumed recursively; atom renderings bounded; D14 finding",
                   "contract-based verification of the parenthesisation (document algebra, invariants, z3) + bounded round trip")
 CLAIMED["C10"] = ("other", "Mixed: (frame analysis, decided statically on every run) every memoised function found in the source reads, through its key parameters, only state that ==/hash compare, and the key objects it returns "
-                  "carry no uncompared field that str()/evaluate read - with the memoisation meta-lemma this gives independence from history; (bounded) cold-vs-warm differential of probe operations after generated histories, "
+                  "carry no uncompared field that str()/evaluate read (calls of module-level functions, local aliases and dataclasses.replace copies followed; the lazily filled view of an atom may only be read inside its accessor), "
+                  "and the one place that installs that view from outside, from_specifier, installs it only when it is spelled as the atom's own text - with the memoisation meta-lemma this gives independence from history; (bounded) cold-vs-warm differential of probe operations after generated histories, "
                   "including operands/results that are equal as keys but built or spelled differently.", "5 C10", "meta-lemma (stated, trusted); annotations used for method resolution; whitelisted lazy cache _specifier",
                   "frame-condition (read-set) obligations from the AST + bounded cold/warm differential")
 CLAIMED["C15"] = ("other", "Mixed: (proof) the atom-layer operators - EqualityMarkerUnion / InequalityMultiMarker replace/&/|, _merge_single_markers and MarkerExpression &/| on string atoms - never return an atom group with fewer "
